@@ -13,6 +13,18 @@ def base(a=1, b='b', *extra, **kw):
                     **{f'extra_{k}': v for k, v in kw.items()})
 
 
+def base_lit(layers, stages=None):
+  """The literal arguments go STRAIGHT into the configuration (no copy): an override that edits
+  them in place edits the object the call expression was parsed into."""
+  LOG.append(('base_lit', repr(layers), repr(stages)))
+  return fdl.Config(kinds.node, a=layers, b=fdl.Config(kinds.two, x='b', y=[1, 2]), c=stages)
+
+
+def store(cfg, names=None):
+  LOG.append(('store', repr(names)))
+  cfg.c = names
+
+
 def base2():
   LOG.append(('base2',))
   return fdl.Config(kinds.three, a=fdl.Config(kinds.two, x=0), b=[0, 0], c=None)
